@@ -147,7 +147,7 @@ func (s *Closer) SetConfigThreadSafe(config ConfigureCloser) {
 	s.mu.Lock()
 	defer s.mu.Unlock()
 	s.config = config
-	s.reopenCircuitCheck.TimeAfterFunc = config.AfterFunc
+	s.reopenCircuitCheck.SetTimeAfterFunc(config.AfterFunc)
 	s.reopenCircuitCheck.SetSleepDuration(config.SleepWindow)
 	s.reopenCircuitCheck.SetEventCountToAllow(config.HalfOpenAttempts)
 	s.closeOnCurrentCount.Set(config.RequiredConcurrentSuccessful)
